@@ -569,12 +569,20 @@ class RZILTransformer(Transformer):
         """
         if assign.assign_type == AssignmentType.ASSIGN:
             return
-        elif assign.assign_type == AssignmentType.ASSIGN_ADD:
+        # The operands of `a op= b` are converted like the ones of `a op b`.
+        a = self.promotion_cast(assign.dest)
+        b = self.promotion_cast(assign.src)
+        if assign.assign_type not in [
+            AssignmentType.ASSIGN_RIGHT,
+            AssignmentType.ASSIGN_LEFT,
+        ]:
+            a, b = self.cast_operands(a=a, b=b, immutable_a=False)
+        if assign.assign_type == AssignmentType.ASSIGN_ADD:
             assign.set_src(
                 ArithmeticOp(
                     f"op_ADD",
-                    self.promotion_cast(assign.dest),
-                    self.promotion_cast(assign.src),
+                    a,
+                    b,
                     ArithmeticType.ADD,
                 )
             )
@@ -582,8 +590,8 @@ class RZILTransformer(Transformer):
             assign.set_src(
                 ArithmeticOp(
                     f"op_SUB",
-                    self.promotion_cast(assign.dest),
-                    self.promotion_cast(assign.src),
+                    a,
+                    b,
                     ArithmeticType.SUB,
                 )
             )
@@ -591,8 +599,8 @@ class RZILTransformer(Transformer):
             assign.set_src(
                 ArithmeticOp(
                     f"op_MUL",
-                    self.promotion_cast(assign.dest),
-                    self.promotion_cast(assign.src),
+                    a,
+                    b,
                     ArithmeticType.MUL,
                 )
             )
@@ -600,8 +608,8 @@ class RZILTransformer(Transformer):
             assign.set_src(
                 ArithmeticOp(
                     f"op_MOD",
-                    self.promotion_cast(assign.dest),
-                    self.promotion_cast(assign.src),
+                    a,
+                    b,
                     ArithmeticType.MOD,
                 )
             )
@@ -609,8 +617,8 @@ class RZILTransformer(Transformer):
             assign.set_src(
                 ArithmeticOp(
                     f"op_DIV",
-                    self.promotion_cast(assign.dest),
-                    self.promotion_cast(assign.src),
+                    a,
+                    b,
                     ArithmeticType.DIV,
                 )
             )
@@ -636,8 +644,8 @@ class RZILTransformer(Transformer):
             assign.set_src(
                 BitOp(
                     f"op_AND",
-                    assign.dest,
-                    assign.src,
+                    a,
+                    b,
                     BitOperationType.AND,
                 )
             )
@@ -645,8 +653,8 @@ class RZILTransformer(Transformer):
             assign.set_src(
                 BitOp(
                     f"op_OR",
-                    assign.dest,
-                    assign.src,
+                    a,
+                    b,
                     BitOperationType.OR,
                 )
             )
@@ -654,8 +662,8 @@ class RZILTransformer(Transformer):
             assign.set_src(
                 BitOp(
                     f"op_XOR",
-                    assign.dest,
-                    assign.src,
+                    a,
+                    b,
                     BitOperationType.XOR,
                 )
             )
@@ -687,10 +695,7 @@ class RZILTransformer(Transformer):
         else:
             src: Pure = items[2]
         name = f"op_{op_type.name}"
-        if op_type not in [
-            AssignmentType.ASSIGN_RIGHT,
-            AssignmentType.ASSIGN_LEFT,
-        ]:
+        if op_type == AssignmentType.ASSIGN:
             dest, src = self.cast_operands(a=dest, b=src, immutable_a=True)
         assignment = Assignment(name, op_type, dest, src)
         self.update_assign_src(assignment)
